@@ -195,7 +195,7 @@ fn layout_check(c: &LayoutCase, ptr: usize, props: &str, out: &mut Vec<Fail>) {
         }
     }
 }
-fn layout_family(seed: u64, props: &str, out: &mut Vec<Fail>) -> usize {
+fn layout_family(seed: u64, quick: bool, props: &str, out: &mut Vec<Fail>) -> usize {
     let addrs: [Option<u128>; 8] = [None, Some(0), Some(2), Some(4), Some(6), Some(8), Some(16), Some(24)];
     let sizes = [None, Some(8), Some(16), Some(24), Some(32)];
     let aligns = [None, Some(1), Some(2), Some(3), Some(4), Some(8), Some(16)];
@@ -212,6 +212,8 @@ fn layout_family(seed: u64, props: &str, out: &mut Vec<Fail>) -> usize {
                     for (ai, a) in aligns.iter().enumerate() {
                         // thin out the attribute product deterministically for two-field types
                         if nf == 2 && (k + si * 7 + ai * 3) % 5 != 0 { continue; }
+                        // quick tier: one slice in twelve of the two-field product, chosen by the seed
+                        if quick && nf == 2 && ((k / 5 + si + ai) as u64 + seed) % 12 != 0 { continue; }
                         for packed in [false, true] {
                             if packed && a.is_some() && (k % 7 != 0) { continue; }
                             for vft in [false, true] {
@@ -230,7 +232,7 @@ fn layout_family(seed: u64, props: &str, out: &mut Vec<Fail>) -> usize {
     // pseudo-random 3-4 field types
     let mut x = seed.wrapping_mul(6364136223846793005).wrapping_add(1442695040888963407) | 1;
     let mut rnd = |m: usize| { x ^= x << 13; x ^= x >> 7; x ^= x << 17; (x % m as u64) as usize };
-    for _ in 0..6000 {
+    for _ in 0..(if quick { 800 } else { 6000 }) {
         let nf = 3 + rnd(2);
         let mut fields = vec![]; let mut end = 0u128;
         for _ in 0..nf {
@@ -257,13 +259,14 @@ fn vft_family(props: &str, out: &mut Vec<Fail>) -> usize {
             for k in 0..idx.len().pow(nf as u32) {
                 let mut is = vec![]; let mut kk = k;
                 for _ in 0..nf { is.push(idx[kk % idx.len()]); kk /= idx.len(); }
-                for s in sizes {
+                for s in sizes { for recvless in [false, true] {
+                    if recvless && (nf == 0 || k % 3 != 0) { continue; }
                     let mut src = String::from("pub type T {\n");
                     if let Some(s) = s { src.push_str(&format!("    #[size({s})]\n")); }
                     src.push_str("    vftable {\n");
                     for (i, ix) in is.iter().enumerate() {
                         if let Some(ix) = ix { src.push_str(&format!("        #[index({ix})]\n")); }
-                        src.push_str(&format!("        pub fn v{i}(&self, a: u32) -> u32;\n"));
+                        if recvless && i == 0 { src.push_str("        pub fn v0(a: u32) -> u32;\n"); } else { src.push_str(&format!("        pub fn v{i}(&self, a: u32) -> u32;\n")); }
                     }
                     src.push_str("    },\n}\n");
                     // reference slot table
@@ -293,7 +296,8 @@ fn vft_family(props: &str, out: &mut Vec<Fail>) -> usize {
                             if props.contains("C04") && &names != e { fail(format!("slots {e:?}"), format!("slots {names:?}")); }
                             if props.contains("C16") || props.contains("C04") {
                                 for f in &v.functions {
-                                    if f.calling_convention != CallingConvention::Thiscall { fail(format!("slot {} thiscall", f.name), format!("{:?}", f.calling_convention)); }
+                                    let want = if recvless && f.name == "v0" { CallingConvention::System } else { CallingConvention::Thiscall };
+                                    if f.calling_convention != want { fail(format!("slot {} {:?}", f.name, want), format!("{:?}", f.calling_convention)); }
                                     if f.name.starts_with("_vfunc_") && (f.visibility != Visibility::Private || f.arguments != vec![Argument::MutSelf] || f.return_type.is_some()) {
                                         fail(format!("placeholder {} private fn(&mut self)", f.name), format!("{f}"));
                                     }
@@ -310,7 +314,7 @@ fn vft_family(props: &str, out: &mut Vec<Fail>) -> usize {
                         }
                     }
                     if out.len() > 40 { return n; }
-                }
+                } }
             }
         }
     }
@@ -318,7 +322,7 @@ fn vft_family(props: &str, out: &mut Vec<Fail>) -> usize {
 }
 
 // ------------------------------------------------------------------------------------------------ enums (C08 C02 C15 C17)
-fn enum_family(props: &str, out: &mut Vec<Fail>) -> usize {
+fn enum_family(seed: u64, quick: bool, props: &str, out: &mut Vec<Fail>) -> usize {
     let bases = [("u8", 1usize), ("i8", 1), ("u16", 2), ("u32", 4), ("i32", 4), ("u64", 8)];
     let vals: [Option<i64>; 7] = [None, Some(-2), Some(0), Some(1), Some(5), Some(100), Some(127)];
     let mut n = 0;
@@ -327,6 +331,7 @@ fn enum_family(props: &str, out: &mut Vec<Fail>) -> usize {
             for k in 0..vals.len().pow(nv as u32) {
                 let mut vs = vec![]; let mut kk = k;
                 for _ in 0..nv { vs.push(vals[kk % vals.len()]); kk /= vals.len(); }
+                if quick && nv == 3 && (k as u64 + seed) % 6 != 0 { continue; }
                 for def in 0..=nv {            // position of #[default]; nv = none
                     for defaultable in [false, true] {
                         for copyable in [false, true] {
@@ -564,7 +569,30 @@ fn misc_family(props: &str, out: &mut Vec<Fail>) -> usize {
                  if dm == vec!["m::A", "m::E", "m::V", "m::VVftable"] && dn == vec!["n::B"] { None } else { Some(("m: [A, E, V, VVftable], n: [B]".into(), format!("m: {dm:?}, n: {dn:?}"))) } }
                  _ => Some(("accepted".into(), o.tag())) }, out, "registration");
     }
+    if props.contains("C14") || props.contains("C19") {
+        // a generated vftable struct belongs to the module of its type, also for nested module paths
+        case(vec![("gfx", "pub type Plain { pub a: u32 }".into()), ("gfx::scene", "pub type Drawable { vftable { pub fn draw(&self); }, }".into())], 4,
+             &|o| match o { Outcome::Ok(st) => {
+                 let mut a: Vec<String> = st.modules().get(&ItemPath::from("gfx")).map(|m| m.definition_paths().iter().map(|p| p.to_string()).collect()).unwrap_or_default(); a.sort();
+                 let mut b: Vec<String> = st.modules().get(&ItemPath::from("gfx::scene")).map(|m| m.definition_paths().iter().map(|p| p.to_string()).collect()).unwrap_or_default(); b.sort();
+                 if a == vec!["gfx::Plain"] && b == vec!["gfx::scene::Drawable", "gfx::scene::DrawableVftable"] { None } else { Some(("gfx: [Plain]; gfx::scene: [Drawable, DrawableVftable]".into(), format!("gfx: {a:?}; gfx::scene: {b:?}"))) } }
+                 _ => Some(("accepted".into(), o.tag())) }, out, "registration");
+    }
+    if props.contains("C19") || props.contains("C11") {
+        // two modules that do not import each other define the same short name; each binds its own
+        for rounds in 0..6 {
+            let _ = rounds;
+            case(vec![("audio", "pub type Handle { pub a: u8 } pub type User { pub h: *mut Handle }".into()), ("video", "pub type Handle { pub a: u64 } pub type User { pub h: *mut Handle }".into())], 8,
+                 &|o| match o { Outcome::Ok(st) => {
+                     let f = |m: &str| get_type(st, &format!("{m}::User")).and_then(|(_, td)| td.regions.first().map(|r| format!("{}", r.type_ref)));
+                     let (a, v) = (f("audio"), f("video"));
+                     if a.as_deref() == Some("*mut audio::Handle") && v.as_deref() == Some("*mut video::Handle") { None } else { Some(("audio::User.h: *mut audio::Handle, video::User.h: *mut video::Handle".into(), format!("{a:?}, {v:?}"))) } }
+                     _ => Some(("accepted".into(), o.tag())) }, out, "scoping");
+        }
+    }
     if props.contains("C15") || props.contains("C17") {
+        // an extern value without an address is rejected even after one that has an address
+        case(vec![("m", "#[address(0x2000)] pub extern a: u32; pub extern b: u32;".into())], 4, &expect_err, out, "type-attrs");
         for (attr, ok) in [("singleton(0x1337)", true), ("singleton(-1)", false)] {
             case(vec![("m", format!("#[{attr}] pub type T {{ pub a: u32 }}"))], 4, &|o| match (o, ok) {
                 (Outcome::Ok(st), true) => { let s = get_type(st, "m::T").and_then(|(_, td)| td.singleton); if s == Some(0x1337) { None } else { Some(("singleton 0x1337".into(), format!("{s:?}"))) } }
@@ -614,13 +642,56 @@ fn misc_family(props: &str, out: &mut Vec<Fail>) -> usize {
     n
 }
 
-fn run_family(prop: &str, seed: u64, out: &mut Vec<Fail>) -> usize {
+// ------------------------------------------------------------------------------------------------ absurd inputs (C12): only "no panic" is checked
+fn absurd_family(out: &mut Vec<Fail>) -> usize {
+    let big = "18446744073709551615";
+    let srcs: Vec<String> = vec![
+        "pub type T { pub a: [u64; 4611686018427387904] }".into(),
+        format!("pub type T {{ pub a: unknown<{big}>, pub b: unknown<{big}> }}"),
+        "#[size(4), align(0)] extern type X; pub type T { pub a: X, pub b: X }".into(),
+        "#[size(4), align(0)] extern type X; #[align(4)] pub type T { pub a: X }".into(),
+        "#[size(4), align(1099511627776)] extern type X; #[size(4), align(2199023255552)] extern type Y; pub type T { pub a: X, pub b: Y }".into(),
+        "#[size(4), align(1099511627777)] extern type X; #[size(4), align(2199023255552)] extern type Y; #[size(4), align(4398046511105)] extern type Z; pub type T { pub a: X, pub b: Y, pub c: Z }".into(),
+        "pub type T { vftable { #[index(-1)] pub fn f(&self); }, }".into(),
+        "pub type T { #[size(-1)] vftable { pub fn f(&self); }, }".into(),
+        "pub enum E: i64 { A = 9223372036854775807, B }".into(),
+        "#[singleton(-1)] pub enum E: u32 { A }".into(),
+        "#[address(-1)] pub extern x: u32;".into(),
+        "pub type B { pub a: u32 } pub type D { #[base] _: B }".into(),
+        "#[align(0)] pub type T { pub a: u8 }".into(),
+        "#[size(-5)] pub type T { pub a: u8 }".into(),
+        "pub type T { #[address(-4)] pub a: u8 }".into(),
+        format!("pub type T {{ #[address({big})] pub a: u64 }}"),
+        format!("#[size({big})] pub type T {{ pub a: u8 }}"),
+        "pub type T { pub a: [[u64; 4294967296]; 4294967296] }".into(),
+        "pub type Node { vftable { pub fn visit(&mut self); }, pub next: Node }".into(),
+        "pub type A { pub a: A }".into(),
+    ];
     let mut n = 0;
-    if ["C01", "C02", "C03", "C12"].contains(&prop) { n += layout_family(seed, prop, out); }
+    for src in srcs {
+        for ptr in [0usize, 4, 8] {
+            // a worker thread with a deadline: "never hang"
+            let s2 = src.clone();
+            let (tx, rx) = std::sync::mpsc::channel();
+            std::thread::spawn(move || { let o = build_one(&s2, ptr); let _ = tx.send(o.tag()); });
+            n += 1;
+            match rx.recv_timeout(std::time::Duration::from_secs(10)) {
+                Ok(tag) => { if tag.starts_with("PANIC") { out.push(Fail { family: "absurd", input: src.clone(), ptr, expected: "Ok or Err".into(), actual: tag }); } }
+                Err(_) => out.push(Fail { family: "absurd", input: src.clone(), ptr, expected: "a result within 10 s".into(), actual: "no result (hang)".into() }),
+            }
+        }
+    }
+    n
+}
+
+fn run_family(prop: &str, seed: u64, quick: bool, out: &mut Vec<Fail>) -> usize {
+    let mut n = 0;
+    if ["C01", "C02", "C03", "C12"].contains(&prop) { n += layout_family(seed, quick, prop, out); }
     if ["C04", "C16", "C02", "C12", "C14", "C06", "C20"].contains(&prop) { n += vft_family(prop, out); }
-    if ["C08", "C02", "C15", "C17", "C12", "C20"].contains(&prop) { n += enum_family(prop, out); }
+    if ["C08", "C02", "C15", "C17", "C12", "C20"].contains(&prop) { n += enum_family(seed, quick, prop, out); }
     if ["C05", "C16", "C17", "C10", "C12"].contains(&prop) { n += fn_family(prop, out); }
-    if ["C06", "C12"].contains(&prop) { n += inherit_family(prop, out); }
+    if ["C06", "C16", "C12"].contains(&prop) { n += inherit_family(if prop == "C16" { "C06" } else { prop }, out); }
+    if ["C12", "C03"].contains(&prop) { n += absurd_family(out); }
     if ["C10", "C11", "C14", "C15", "C17", "C19", "C20", "C12"].contains(&prop) { n += misc_family(prop, out); }
     n
 }
@@ -644,8 +715,9 @@ fn main() {
         Some("witness") => {
             let prop = a.get(2).expect("prop");
             let seed = a.get(3).and_then(|s| s.parse().ok()).unwrap_or(0u64);
+            let quick = a.get(4).map(|s| s == "quick").unwrap_or(false);
             let mut out = vec![];
-            let n = run_family(prop, seed, &mut out);
+            let n = run_family(prop, seed, quick, &mut out);
             for f in out.iter().take(25) {
                 println!("{{\"prop\":\"{}\",\"family\":\"{}\",\"ptr\":{},\"input\":\"{}\",\"expected\":\"{}\",\"actual\":\"{}\"}}", prop, f.family, f.ptr, esc(&f.input), esc(&f.expected), esc(&f.actual));
             }
